@@ -47,7 +47,7 @@ def _run_one(args):
         known, _ = load_known(prop)
         bad = [o for o in rep.obs if o.status != "ok" and o.key() not in known]
         if expect == "fire":
-            hit = [o for o in bad if needle in o.construct or needle in o.detail or needle in o.rule]
+            hit = [o for o in bad if needle in o.construct or needle in o.detail or needle in o.rule or needle in (o.rule + ' ' + o.construct)]
             if hit:
                 return (mid, "fired", hit[0].rule + " " + hit[0].construct)
             return (mid, "missed", f"{len(bad)} other reports" if bad else "no report")
